@@ -230,7 +230,9 @@ func oneShot(c *vf.Ctx) {
 // ---------------------------------------------------------------- NT / UTF-16LE
 
 // includes both sides of every UTF-16 encoding boundary: U+D7FF/U+E000 (around the surrogate block), U+FFFF/U+10000/U+10001 (BMP edge), U+10FFFF (last code point)
-var runeAlpha = []string{"a", "Z", "0", " ", "\x00", "é", "ß", "Σ", "я", "€", "\ud7ff", "\ue000", "\uffff", "\U00010000", "\U00010001", "\U00010428", "\U0001F600", "\U0010FFFF"}
+var runeAlpha = []string{"a", "Z", "0", " ", "\x00", "é", "ß", "Σ", "я", "€", "\ud7ff", "\ue000", "\uffff", "\U00010000", "\U00010001", "\U00010428", "\U0001F600", "\U0010FFFF",
+	// code points a text layer likes to treat specially (byte-order mark, its mirror, zero-width and no-break space, line ends): to a hash they are characters like any other
+	"\ufeff", "\ufffe", "\u200b", "\u00a0", "\t", "\n", "\r"}
 
 func ntAndUTF16(c *vf.Ctx) {
 	ss := enum.Strings(runeAlpha, c.Pick(3, 4))
@@ -307,7 +309,9 @@ func lmHash(c *vf.Ctx) {
 
 func dccAll(c *vf.Ctx) {
 	pws := enum.Strings([]string{"a", "P", "é", "\U0001F600"}, 2)
-	users := []string{"", "a", "Admin", "ADMIN", "administrator", "é", "É", "Σ", "σ", "Я", "\U00010400", "\U00010428", "user.name", "Ünï"}
+	users := []string{"", "a", "Admin", "ADMIN", "administrator", "é", "É", "Σ", "σ", "Я", "\U00010400", "\U00010428", "user.name", "Ünï",
+		// the salt is the user name EXACTLY as given (lower-cased): qualified forms, separators, surrounding blanks and a byte-order mark are part of it
+		"CORP\\alice", "ops/deploy", "alice@corp.local", "svc@backup", "@lead", "trail@", " padded ", "\ufeffbom", "tab\tname", "a:b", "a$"}
 	// long user names (user@dns-domain forms are long): both sides of every size a salt buffer or a limit could have
 	for _, n := range []int{19, 20, 21, 27, 28, 31, 32, 33, 63, 64, 65, 127, 128, 129, 130, 255, 256, 257, 1000} {
 		users = append(users, "U"+strings.Repeat("s", n-1), strings.Repeat("\U00010400", n/2)+strings.Repeat("x", n%2))
